@@ -91,6 +91,9 @@ var c36scenarios = []c36scenario{
 	{"2 dials, outbound limit 1", 8, 8, 1, nil, []string{"dial 1.1.1.1:20338", "dial 2.2.2.2:20338"}},
 	{"dial vs accept, limits 1/1", 1, 8, 1, nil, []string{"dial 1.1.1.1:20338", "accept 2.2.2.2:1001"}},
 	{"3 dials, outbound limit 2", 8, 8, 2, nil, []string{"dial 1.1.1.1:20338", "dial 2.2.2.2:20338", "dial 3.3.3.3:20338"}},
+	{"2 dials of the same address, outbound limit 1", 8, 8, 1, nil, []string{"dial 1.1.1.1:20338", "dial 1.1.1.1:20338"}},
+	{"2 dials of the same address + another, outbound limit 2", 8, 8, 2, nil, []string{"dial 1.1.1.1:20338", "dial 1.1.1.1:20338", "dial 2.2.2.2:20338"}},
+	{"2 accepts from the same remote address, inbound limit 1", 1, 8, 8, nil, []string{"accept 1.1.1.1:1001", "accept 1.1.1.1:1001"}},
 }
 
 type c36inst struct {
@@ -169,6 +172,29 @@ func (in *c36inst) check(final bool) string {
 	for ip, n := range perip {
 		if n > in.sc.perIP {
 			return fmt.Sprintf("per-ip-limit: %d inbound connections from %s, limit %d", n, ip, in.sc.perIP)
+		}
+	}
+	if final {
+		// connections handed to callers (and not closed) are established connections, whatever the records say
+		estIn, estOut := uint(len(in.sc.pre)), uint(0)
+		for i, th := range in.sc.threads {
+			if !in.success[i] {
+				continue
+			}
+			switch strings.Fields(th)[0] {
+			case "accept":
+				estIn++
+			case "dial":
+				estOut++
+			case "close":
+				estIn--
+			}
+		}
+		if estIn > in.sc.maxIn {
+			return fmt.Sprintf("inbound-limit: %d inbound connections were handed to callers and are open, limit %d (records show %d)", estIn, in.sc.maxIn, nin)
+		}
+		if estOut > in.sc.out {
+			return fmt.Sprintf("outbound-limit: %d outbound connections were handed to callers and are open, limit %d (records show %d)", estOut, in.sc.out, nout)
 		}
 	}
 	return ""
